@@ -31,6 +31,18 @@ def err_kind(v, depth=3):
     return ""
 
 
+def new_compiler(eng):
+    """a Compiler as the real constructor builds it (every field, including ones a later version adds)"""
+    c = compiler_value(eng)
+    names = eng.tdef("Compiler", "struct")[1][2]
+    g = lambda f: c.fields[names.index(f)]
+    try:
+        f = eng.find(short="Compiler::new")
+    except Unmodelled:
+        return c
+    return models.deref(eng.call_fn(f, [g("pparams"), g("config"), g("cursor")]))
+
+
 def resolve(ctx, comp, tx, cap):
     eng = ctx.eng
     anytir = eng.mk_variant("AnyTir", "V1Beta0", [models.vclone(eng, tx)])
@@ -39,12 +51,14 @@ def resolve(ctx, comp, tx, cap):
     return models.deref(eng.block_on(eng.call_fn(eng.fns["resolve_tx"], [anytir, ref_to_value(args), ref_to_value(comp), ref_to_value(store), cap])))
 
 
-def native_replay(eng, tx, hist, T):
+def native_replay(eng, tx, hist, T, earlier_tx=None):
     """the counterexample on the real build: resolve an earlier template with `hist` outputs on one
     instance, then the target on it and on a fresh one; True = the outcomes differ natively"""
     import native, tirdump
     if hist < 0:
         earlier = []
+    elif earlier_tx is not None:
+        earlier = [tirdump.dump(eng, earlier_tx, "Tx")]
     else:
         earlier = [tirdump.dump(eng, mk_tx(T, fees=fees_leaf(T), outputs=[out(T, address=T.address([0x60] + [9 + i] * 28), amount=ada(T, T.num(3000000 + i))) for i in range(hist)]), "Tx")]
     case = dict(cmd="history", tir=tirdump.dump(eng, tx, "Tx"), earlier=earlier, rounds=3)
@@ -59,13 +73,32 @@ def h_history(ctx, tier, seed, n_outputs=2):
     outs = [out(T, amount=ada(T, T.num(2000000))) for _ in range(n_outputs)]
     outs[k] = out(T, amount=builtin(T, "Add", minutxo, ada(T, T.num(7))))
     tx = mk_tx(T, fees=fees_leaf(T), outputs=outs)
-    hist = eng.choose(4, "state left by earlier resolutions") - 1        # -1: none, else number of outputs of the last body
-    fresh = compiler_value(eng)
-    used = compiler_value(eng)
-    if hist >= 0:
+    hist = eng.choose(7, "state left by earlier resolutions") - 1
+    # -1: none; 0..2: an arbitrary body with that many outputs left in latest_tx_body;
+    #  3 / 4: a real earlier resolution on the instance (a template with one output / without outputs)
+    fresh = new_compiler(eng)
+    used = new_compiler(eng)
+    if 0 <= hist <= 2:
         names = eng.tdef("Compiler", "struct")[1][2]
         body = some(Agg("KeepRaw", None, 0, [foreign_struct(eng, "TransactionBody", outputs=VecM([Opaque("earlier_output%d" % i) for i in range(hist)]))]))
         used.fields[names.index("latest_tx_body")] = body
+    elif hist >= 3:
+        if hist == 5:
+            # an earlier resolution that uses min_utxo itself and *fails* in its second pass, after the
+            # compiler ops of that pass were evaluated: `until_slot: 1000 - fees` is a valid slot with
+            # the first pass's fee of 0 and negative with any real fee
+            earlier = mk_tx(T, fees=fees_leaf(T), outputs=[out(T, address=T.address([0x60] + [9] * 28), amount=builtin(T, "Add", T.v("Expression", "EvalCompiler", BoxV(T.v("CompilerOp", "ComputeMinUtxo", T.num(k)))), ada(T, T.num(11)))),
+                                                            out(T, address=T.address([0x60] + [8] * 28), amount=ada(T, T.num(3000000)))][:max(k + 1, 1)],
+                            validity=some(T.st("Validity", since=T.none(), until=builtin(T, "Sub", T.num(1000), fees_leaf(T)))))
+        else:
+            earlier = mk_tx(T, fees=fees_leaf(T), outputs=[out(T, address=T.address([0x60] + [9] * 28), amount=ada(T, T.num(3000000)))] if hist == 3 else [])
+        ctx.earlier_tx = earlier
+        try:
+            resolve(ctx, used, earlier, 3)
+        except Panic as p:
+            eng.stats.panic_paths += 1
+            ctx.violation("resolve_tx panicked on the earlier template: %s" % p.kind, site=p.site, shape="resolve_tx panics")
+            return
     try:
         a = resolve(ctx, fresh, tx, 3)
         b = resolve(ctx, used, tx, 3)
@@ -73,10 +106,10 @@ def h_history(ctx, tier, seed, n_outputs=2):
         eng.stats.panic_paths += 1
         ctx.violation("resolve_tx panicked: %s" % p.kind, site=p.site, shape="resolve_tx panics")
         return
-    what = "no earlier body" if hist < 0 else "an earlier body with %d output(s)" % hist
+    what = "no earlier body" if hist < 0 else ("an earlier body with %d output(s)" % hist if hist <= 2 else "after really resolving a template with %d output(s)" % (1 if hist == 3 else 0) if hist <= 4 else "after an earlier resolution that used min_utxo and failed in its second pass")
 
     def replay(vals):
-        differs, r = native_replay(eng, tx, hist, T)
+        differs, r = native_replay(eng, tx, hist, T, getattr(ctx, 'earlier_tx', None) if hist >= 3 else None)
         return True if differs else None       # a history of one particular earlier template agreeing natively decides nothing
     if a.variant != b.variant:
         ctx.require(False, "fresh instance: %s, reused instance (%s): %s %s" % (a.variant, what, b.variant, err_kind(b.fields[0]) if b.variant == "Err" else ""),
@@ -97,7 +130,7 @@ def h_history(ctx, tier, seed, n_outputs=2):
         # the values are computed from different structures; whether the bytes differ depends on
         # encoded lengths the engine leaves uninterpreted: decided on the real build
         if confirmed is None:
-            confirmed = native_replay(eng, tx, hist, T)[0]
+            confirmed = native_replay(eng, tx, hist, T, getattr(ctx, 'earlier_tx', None) if hist >= 3 else None)[0]
         if confirmed:
             ctx.require(cond, "the %s is the same on a fresh and on a reused instance (%s)" % (f, what), shape="%s depends on the instance's history" % f, replay=lambda v: True)
         elif len(ctx.samples) < 3:
@@ -111,5 +144,5 @@ def _h(name, fn, bounds, tier="quick", **kw):
 
 
 HARNESSES = [
-    _h("c20_history_min_utxo", h_history, "template with 2 outputs, min_utxo(k) for k in {0,1} + fees; earlier state: none / body with 0, 1, 2 arbitrary outputs; resolve_tx with max_optimize_rounds = 3 (up to 5 passes)", max_paths=50000),
+    _h("c20_history_min_utxo", h_history, "template with 2 outputs, min_utxo(k) for k in {0,1} + fees; earlier state: none / an arbitrary body with 0, 1, 2 outputs left behind / a real earlier resolution of a template with 1 or 0 outputs, or of one that uses min_utxo and fails in its second pass; resolve_tx with max_optimize_rounds = 3 (up to 5 passes)", max_paths=50000),
 ]
